@@ -19,6 +19,17 @@ SCENARIOS = [
     (r'EventBus\._execute_handlers/raises:cancellederror_only_if_task_cancelled', 'rp_handler_raises_cancelled.py'),
     (r'EventBus\.process_event/callsite:event_result_update\\(pending\\)', 'rp_forward_completion_regress.py'),
     (r'EventResult\.update/ensures:typed_', 'rp_result_type_union.py'),
+    (r'event_results_filtered/(safety:AssertionError|raises:only_declared)', 'rp_accessor_none_result.py'),
+    (r'__await__\.wait/callsite:process_event/requires:inline_bus_is_running', 'rp_stop_then_inline.py'),
+    (r'__await__\.wait/(exit:every_taken_event_is_task_done|loop.*nothing_in_hand)', 'rp_timeout_inline_accounting.py'),
+    (r'__await__\.wait/callsite:process_event/requires:inline_target', 'rp_await_runs_unrelated.py'),
+    (r'__await__\.wait/ensures:complete_at_return_inside_handlers', 'rp_await_gives_up.py'),
+    (r'__await__\.wait/callsite:get_nowait/requires', 'rp_fifo_inversion.py'),
+    (r'BaseEvent\.event_bus/ensures', 'rp_event_bus_after_forward.py'),
+    (r'process_event/ensures:completion_propagated', 'rp_evicted_parent_never_completes.py'),
+    (r'semaphore\.acquire/requires:cached_semaphore', 'rp_semaphore_across_loops.py'),
+    (r'helpers\._execute_with_retries/', 'rp_retry_family.py'),
+    (r'helpers\.(retry\.wrapper|_acquire_asyncio_semaphore|_get_or_create_semaphore)/(?!.*cached_semaphore)', 'rp_semaphore_family.py'),
 ]
 
 
